@@ -581,6 +581,46 @@ theorem unit_sync_run (ops : List Op) : ∀ (w : World), (∀ u, w.unit = some u
   | nil => intro w hw; exact hw
   | cons op ops ih => intro w hw; exact ih (step w op).1 (unit_sync_step w op hw)
 
+/-- **The share's sub-objects keep their identity**: no operation rebinds the deck (a reference
+to `share.deck` held by a caller — also one taken while the deck was empty — is the share's deck
+for ever); the data record is rebound only by a successful assignment of a whole record
+(`share.data = …`, the documented setter); the unit record, once made, stays. -/
+theorem C19_subobjects_keep_identity (w : World) (op : Op) :
+    (step w op).1.deckId = w.deckId ∧
+    ((∀ ps, op ≠ .setData ps) → (step w op).1.dataId = w.dataId) ∧
+    (∀ ps, ((step w (.setData ps)).2 = .unit → (step w (.setData ps)).1.dataId = w.dataId + 1) ∧
+      ((step w (.setData ps)).2 ≠ .unit → (step w (.setData ps)).1.dataId = w.dataId)) ∧
+    (w.unit.isSome = true → (step w op).1.unit.isSome = true) := by
+  refine ⟨?_, ?_, ?_, ?_⟩
+  · cases op with
+    | sift fs => cases fs <;> (simp only [step]; split <;> rfl)
+    | _ =>
+      simp only [step]
+      all_goals (first | rfl | (split <;> first | rfl | (split <;> first | rfl | (split <;> rfl))))
+  · intro hne
+    cases op with
+    | sift fs => cases fs <;> (simp only [step]; split <;> rfl)
+    | setData ps => exact absurd rfl (hne ps)
+    | _ =>
+      simp only [step]
+      all_goals (first | rfl | (split <;> first | rfl | (split <;> first | rfl | (split <;> rfl))))
+  · intro ps
+    simp only [step]
+    split <;> simp [restamp]
+  · intro hu
+    cases op with
+    | sift fs => cases fs <;> (simp only [step]; split <;> exact hu)
+    | changeUnit ps => rfl
+    | createUnit ps => rfl
+    | _ =>
+      simp only [step]
+      all_goals (first | exact hu | (split <;> first | exact hu | (split <;> first | exact hu | (split <;> exact hu))))
+
+example : (run init [.push (.int 1), .pull, .push (.int 2), .setData [("a".toList, .int 1)], .setData [("_a".toList, .int 1)],
+                     .changeUnit [], .clear]).deckId = 0 ∧
+    (run init [.push (.int 1), .pull, .push (.int 2), .setData [("a".toList, .int 1)], .setData [("_a".toList, .int 1)],
+               .changeUnit [], .clear]).dataId = 1 := by decide
+
 /-- the unit record obeys the same name rule: every history, every name of the unit record is a
 public identifier and its `items()` never raises -/
 theorem C19_unit_names_public (ops : List Op) (u : Data) (h : (run init ops).unit = some u) : Sync u := by
@@ -622,3 +662,4 @@ end Ioflo.Share
 #print axioms Ioflo.Share.C19_values_are_aliased
 #print axioms Ioflo.Share.C19_frames
 #print axioms Ioflo.Share.C19_unit_names_public
+#print axioms Ioflo.Share.C19_subobjects_keep_identity
